@@ -1,6 +1,8 @@
-(* Facts about the equal-points splitting (Model/SwcSplit.v, C16): the pieces chain and cover the section; the
-   first piece has len/n points, so it degenerates when the section has fewer than 3 n points (known findings
-   F25 / F63: a one-point piece, or the piece [soma, first neurite point] of traced length 0). *)
+(* Facts about the max_branch_len splitting (Model/SwcSplit.v, C16): for EVERY section and every requested number of
+   pieces, the pieces chain (each starts at the last point of the previous one), together they are the section, and every
+   piece keeps at least two traced points (as soon as the section has two); the same with the soma point kept in front.
+   The splitting before the repair had a first piece of len/n points: one point, or [soma, first neurite point]
+   (F25 / F63, machine-checked counterexamples). *)
 From Coq Require Import List Arith Lia.
 From JV Require Import SwcSplit.
 Import ListNotations.
@@ -17,40 +19,108 @@ Proof.
   destruct (skipn a l) as [|x r]; [cbn; now rewrite firstn_nil|]. reflexivity.
 Qed.
 
-(* the pieces without their shared first points, one after the other, are the section *)
-Lemma middle_pieces {A} (l : list A) m : 1 <= m -> forall k,
-  firstn m l ++ flat_map (@tl A) (map (fun i => slice l (i * m - 1) ((i + 1) * m)) (seq 1 k)) = firstn ((k + 1) * m) l.
+Lemma slice_app {A} (l : list A) a b d : a <= b -> b <= d -> slice l a b ++ slice l b d = slice l a d.
 Proof.
-  intros Hm. induction k as [|k IH]; [cbn; rewrite app_nil_r; f_equal; lia|].
-  rewrite seq_S, map_app, flat_map_app, app_assoc, IH. cbn [map flat_map]. rewrite app_nil_r.
-  rewrite slice_tl by nia. replace (S ((1 + k) * m - 1)) with ((k + 1) * m) by nia.
-  unfold slice. replace ((1 + k + 1) * m - (k + 1) * m) with m by nia.
-  replace ((S k + 1) * m) with ((k + 1) * m + m) by nia. symmetry. apply firstn_add.
+  intros H1 H2. unfold slice. replace (d - a) with ((b - a) + (d - b)) by lia. rewrite firstn_add. f_equal.
+  replace b with (a + (b - a)) at 2 by lia. rewrite skipn_add. reflexivity.
+Qed.
+Lemma slice_length {A} (l : list A) a b : b <= length l -> length (slice l a b) = b - a.
+Proof. intros H. unfold slice. rewrite firstn_length, skipn_length. lia. Qed.
+Lemma slice_all {A} (l : list A) : slice l 0 (length l) = l.
+Proof. unfold slice. rewrite Nat.sub_0_r. cbn [skipn]. apply firstn_all. Qed.
+
+(* the tails of consecutive pieces, one after the other *)
+Lemma tails_cat {A} (l : list A) (c : nat -> nat) : (forall i, c i <= c (S i)) -> forall k,
+  flat_map (@tl A) (map (fun i => slice l (c i) (c (i + 1) + 1)) (seq 0 k)) = slice l (c 0 + 1) (c k + 1).
+Proof.
+  intros Hc. assert (Hm : forall i j, i <= j -> c i <= c j) by (intros i j H; induction H; [lia | specialize (Hc m); lia]).
+  induction k as [|k IH].
+  - cbn. unfold slice. rewrite Nat.sub_diag. reflexivity.
+  - rewrite seq_S, map_app, flat_map_app, IH. cbn [map flat_map Nat.add]. rewrite app_nil_r.
+    replace (k + 1) with (S k) by lia. rewrite slice_tl by (specialize (Hc k); lia). replace (S (c k)) with (c k + 1) by lia.
+    apply slice_app; [specialize (Hm 0 k); lia | specialize (Hc k); lia].
 Qed.
 
-Theorem split_covers {A} (l : list A) n : 2 <= n -> 1 <= length l / n ->
+Section Cuts.
+  Variables (len n : nat).
+  Hypothesis Hlen : 1 <= len.
+  Notation k := (npieces len n).
+  Notation s := (len - 1).
+
+  Lemma k_pos : 1 <= k.
+  Proof. unfold npieces. lia. Qed.
+  Lemma cut_0 : cut len n 0 = 0.
+  Proof. unfold cut. cbn [Nat.mul]. apply Nat.div_0_l. pose proof k_pos. lia. Qed.
+  Lemma cut_k : cut len n k = s.
+  Proof. unfold cut. rewrite Nat.mul_comm. apply Nat.div_mul. pose proof k_pos. lia. Qed.
+  Lemma cut_mono i : cut len n i <= cut len n (S i).
+  Proof. unfold cut. apply Nat.div_le_mono; [pose proof k_pos; lia | lia]. Qed.
+  (* with at least one segment the cuts increase strictly: every piece has at least two points *)
+  Lemma cut_strict i : 2 <= len -> cut len n i < cut len n (S i).
+  Proof.
+    intros H2. unfold cut. assert (Hk : k <= s) by (unfold npieces; lia). pose proof k_pos as Hp.
+    assert (E : i * s / k + 1 = (i * s + 1 * k) / k) by (rewrite Nat.div_add by lia; reflexivity).
+    assert (L : (i * s + 1 * k) / k <= S i * s / k) by (apply Nat.div_le_mono; [lia | cbn [Nat.mul]; nia]). lia.
+  Qed.
+  Lemma cut_le i : i <= k -> cut len n i <= s.
+  Proof. intros H. rewrite <- cut_k. clear -H Hlen. induction H; [lia|]. pose proof (cut_mono m). lia. Qed.
+End Cuts.
+
+Theorem split_covers {A} (l : list A) n : 1 <= length l ->
   match split_equally l n with
   | first :: rest => first ++ flat_map (@tl A) rest = l
   | [] => False
   end.
 Proof.
-  intros Hn Hm. unfold split_equally. set (m := length l / n) in *. rewrite flat_map_app. cbn [flat_map]. rewrite app_nil_r.
-  unfold slice at 1. rewrite Nat.sub_0_r. cbn [skipn]. rewrite app_assoc, (middle_pieces l m Hm (n - 2)).
-  replace (n - 2 + 1) with (n - 1) by lia.
-  assert (E : tl (skipn ((n - 1) * m - 1) l) = skipn ((n - 1) * m) l).
-  { replace ((n - 1) * m) with (((n - 1) * m - 1) + 1) at 2 by nia. rewrite skipn_add. destruct (skipn ((n - 1) * m - 1) l); reflexivity. }
-  rewrite E. apply firstn_skipn.
+  intros Hl. unfold split_equally. set (len := length l) in *.
+  pose proof (tails_cat l (cut len n) (fun i => cut_mono len n Hl i) (npieces len n)) as T.
+  pose proof (k_pos len n Hl) as Hk. rewrite (cut_0 len n Hl), (cut_k len n Hl) in T.
+  destruct (npieces len n) as [|k']; [lia|]. cbn [seq map flat_map] in *.
+  set (first := slice l (cut len n 0) (cut len n (0 + 1) + 1)) in *.
+  set (X := flat_map (@tl A) (map (fun i => slice l (cut len n i) (cut len n (i + 1) + 1)) (seq 1 k'))) in *.
+  assert (F : first = slice l 0 1 ++ tl first).
+  { unfold first. rewrite (cut_0 len n Hl). rewrite slice_tl by lia. rewrite slice_app by lia. reflexivity. }
+  rewrite F, <- app_assoc, T. rewrite slice_app by lia. replace (len - 1 + 1) with len by lia. apply slice_all.
 Qed.
 
-(* the first piece has len / n points *)
-Theorem first_piece_length {A} (l : list A) n : 1 <= n -> length (hd [] (split_equally l n)) = length l / n.
+Theorem split_count {A} (l : list A) n : length (split_equally l n) = npieces (length l) n.
+Proof. unfold split_equally. rewrite map_length, seq_length. reflexivity. Qed.
+
+Theorem split_pieces_have_two_points {A} (l : list A) n p : 2 <= length l -> In p (split_equally l n) -> 2 <= length p.
 Proof.
-  intros Hn. unfold split_equally. cbn [hd]. unfold slice. rewrite Nat.sub_0_r. cbn [skipn]. rewrite firstn_length.
+  intros H2 Hp. unfold split_equally in Hp. apply in_map_iff in Hp. destruct Hp as (i & <- & Hi). apply in_seq in Hi.
+  assert (Hl : 1 <= length l) by lia.
+  pose proof (cut_strict (length l) n Hl i H2) as S1. pose proof (cut_le (length l) n Hl (i + 1) ltac:(lia)) as S2.
+  replace (i + 1) with (S i) in * by lia. rewrite slice_length by lia. lia.
+Qed.
+
+(* the section that starts at a single-point soma: same statements, the soma stays in front *)
+Theorem split_from_soma_covers {A} (soma : A) (rest : list A) n : 1 <= length rest ->
+  match split_from_soma (soma :: rest) n with
+  | first :: others => first ++ flat_map (@tl A) others = soma :: rest /\ 3 <= length first \/ length rest < 2
+  | [] => False
+  end.
+Proof.
+  intros Hl. unfold split_from_soma. pose proof (split_covers rest n Hl) as C.
+  destruct (split_equally rest n) as [|first others] eqn:E; [destruct C|].
+  destruct (le_lt_dec 2 (length rest)) as [H2|H2]; [left | right; exact H2]. split.
+  - cbn [app]. f_equal. exact C.
+  - assert (Hin : In first (split_equally rest n)) by (rewrite E; now left).
+    pose proof (split_pieces_have_two_points rest n first H2 Hin). cbn [length]. lia.
+Qed.
+
+(* ---- the splitting before the repair ---- *)
+Theorem old_first_piece_length {A} (l : list A) n : 1 <= n -> length (hd [] (split_equally_old l n)) = length l / n.
+Proof.
+  intros Hn. unfold split_equally_old. cbn [hd]. unfold slice. rewrite Nat.sub_0_r. cbn [skipn]. rewrite firstn_length.
   apply Nat.min_l. apply Nat.div_le_upper_bound; nia.
 Qed.
-
-(* F63 / F25: sections with fewer than 3 n (2 n) points get a degenerate first piece *)
-Example stem_of_six_points_in_three_pieces : hd [] (split_equally [1; 2; 3; 4; 5; 6] 3) = [1; 2].
+Example old_stem_of_six_points_in_three_pieces : hd [] (split_equally_old [1; 2; 3; 4; 5; 6] 3) = [1; 2].
 Proof. reflexivity. Qed.
-Example three_points_in_two_pieces : hd [] (split_equally [1; 2; 3] 2) = [1].
+Example old_three_points_in_two_pieces : hd [] (split_equally_old [1; 2; 3] 2) = [1].
 Proof. reflexivity. Qed.
+Example new_examples :
+  split_equally [1; 2; 3; 4; 5; 6] 3 = [[1; 2]; [2; 3; 4]; [4; 5; 6]] /\ split_equally [1; 2; 3] 2 = [[1; 2]; [2; 3]] /\
+  split_equally [1; 2; 3] 7 = [[1; 2]; [2; 3]] /\ split_equally [1] 3 = [[1]] /\
+  split_from_soma [1; 2; 3; 4; 5; 6] 3 = [[1; 2; 3]; [3; 4]; [4; 5; 6]].
+Proof. repeat split; reflexivity. Qed.
